@@ -83,6 +83,11 @@ def parse_tla_value(s: str):
     return val(tok())
 
 
+def read_spec(name: str) -> str:
+    with open(os.path.join(SPEC, name)) as f:
+        return f.read()
+
+
 def workdir(tag: str) -> str:
     d = os.path.join(VERIF, "work", "%s-%d" % (tag, os.getpid()))
     os.makedirs(d, exist_ok=True)
@@ -184,6 +189,16 @@ def run_tlc(
     return res
 
 
+def substitute(text: str, subst: Dict[str, str]) -> str:
+    """Rewrite definition lines `Name == value \\* @KEY@` of a module template."""
+    for key, val in subst.items():
+        pat = re.compile(r"^(\w+\s*==\s*).*?(\s*\\\* @%s@.*)$" % re.escape(key), re.M)
+        text, n = pat.subn(lambda m: m.group(1) + val + m.group(2), text)
+        if n != 1:
+            raise MachineryError("placeholder @%s@ found %d times" % (key, n))
+    return text
+
+
 def require_ok(res: TLCResult, what: str) -> TLCResult:
     if res.status == "broken":
         raise MachineryError("TLC failed (%s):\n%s\n%s" % (what, res.cmd, res.out[-4000:]))
@@ -214,6 +229,7 @@ def validate_traces(
     timeout: int = 1200,
     deque: bool = False,
     tag: str = "batch",
+    subst: Optional[Dict[str, str]] = None,
 ) -> TraceVerdicts:
     """Judge traces with the monitor module `trace_module` (in /verif/spec, cfg next to it).
 
@@ -226,8 +242,16 @@ def validate_traces(
         return TraceVerdicts(0, 0, [], 0, 0, 0.0)
     jvms = max(1, min(jvms, len(traces)))
     chunks = [traces[i::jvms] for i in range(jvms)]
-    for ext in (".tla", ".cfg"):
-        shutil.copy(os.path.join(SPEC, trace_module + ext), os.path.join(wd, trace_module + ext))
+    # the monitor runs in its own directory (one per batch, so that batches with different
+    # substitutions of the "\\* @KEY@" definition lines do not overwrite each other)
+    wd = os.path.join(wd, "tv-%s-%s" % (trace_module, re.sub(r"[^A-Za-z0-9_.-]", "_", tag)))
+    os.makedirs(wd, exist_ok=True)
+    shutil.copy(os.path.join(SPEC, trace_module + ".cfg"), os.path.join(wd, trace_module + ".cfg"))
+    with open(os.path.join(SPEC, trace_module + ".tla")) as f:
+        text = f.read()
+    text = substitute(text, subst or {})
+    with open(os.path.join(wd, trace_module + ".tla"), "w") as f:
+        f.write(text)
 
     def one(i):
         path = os.path.join(wd, "%s-%s-%d.ndjson" % (tag, trace_module, i))
